@@ -12,7 +12,7 @@ INTS = [0, 1, -1, 2, 3, 5, 7, -4, 10, 255, 2 ** 53, 2 ** 53 + 1, -2 ** 60, 10 **
 FLOATS = [0.0, 1.0, -1.0, 0.5, 2.5, -3.25, 1e10, 5.0, math.inf, -math.inf]
 SCALAR_TYS = ['bool', 'int', 'float', 'complex', 'str', 'bytes', 'bytearray', 'NoneType', 'Decimal', 'Fraction',
               'datetime', 'date', 'time', 'Path:PurePosixPath', 'Path:PathLike']
-HASHABLE_LEAF_TYS = ['int', 'str', 'bool', 'float', 'NoneType', 'bytes', 'Fraction', 'Decimal', 'date']
+HASHABLE_LEAF_TYS = ['int', 'str', 'bool', 'float', 'NoneType', 'bytes', 'Fraction', 'date']
 SEQ_ORIGINS = ['list', 'Sequence', 'MutableSequence', 'set', 'MutableSet', 'Set', 'frozenset', 'deque', 'tuple']
 MAP_ORIGINS = ['dict', 'Mapping', 'MutableMapping', 'OrderedDict', 'defaultdict']
 FIELD_NAMES = ['x', 'y', 'my_field', 'other_name', 'tag', 'val', 'zz']
@@ -77,7 +77,7 @@ class Gen:
         self.n += 1
         return f'{prefix}{self.n}'
 
-    def gen_type(self, depth=0, hashable=False):
+    def gen_type(self, depth=0, hashable=False, lit_ok=False):
         r = self.r
         if hashable:
             p = r.random()
@@ -120,11 +120,11 @@ class Gen:
             return {'map': [r.choice(MAP_ORIGINS), [self.gen_type(depth + 1, True), self.gen_type(depth + 1)]]}
         if p < 0.78:
             return self.gen_union(depth)
-        if p < 0.84:
+        if p < 0.84 and lit_ok:
             names = r.sample(FIELD_NAMES, r.randint(0, 3))
-            return {'struct': [[n, self.gen_type(depth + 1)] for n in names]}
-        if p < 0.88:
-            return {'tuplit': [self.gen_type(depth + 1) for _ in range(r.randint(0, 3))]}
+            return {'struct': [[n, self.gen_type(depth + 1, lit_ok=True)] for n in names]}
+        if p < 0.88 and lit_ok:
+            return {'tuplit': [self.gen_type(depth + 1, lit_ok=True) for _ in range(r.randint(0, 3))]}
         if p < 0.95:
             return self.gen_annotated(depth)
         if self.allow_classes:
@@ -216,6 +216,8 @@ class Gen:
             if 'stock' in c:
                 fmt = {'adjective': [c['name'], 'a']}
             conds.append({'cond': c, 'fmt': fmt})
+        if isinstance(inner, dict) and 'ann' in inner:   # typing flattens nested Annotated
+            return {'ann': [inner['ann'][0], inner['ann'][1] + conds]}
         return {'ann': [inner, conds]}
 
     # ---- dataclasses -------------------------------------------------------------------------------
@@ -304,7 +306,7 @@ class Gen:
                 'complex': lambda: r.choice([self.rint(), self.rfloat(), complex(r.randint(-2, 2), r.randint(0, 2))]),
                 'str': self.rstr, 'bytes': lambda: r.choice([self.rbytes(), bytearray(self.rbytes())]),
                 'bytearray': lambda: r.choice([self.rbytes(), bytearray(self.rbytes())]),
-                'Decimal': lambda: r.choice([r.randint(-5, 5), '1.5', '-2', '0.25', self.rfloat(), '1e3']),
+                'Decimal': lambda: r.choice([r.randint(-5, 5), '1.5', '-2', '0.25', self.rfloat(), '10']),
                 'Fraction': lambda: r.choice([r.randint(-5, 5), '1/2', '-3/4', '5', '0.25', 2.5]),
                 'datetime': lambda: r.choice(['2020-01-02T03:04:05', '2021-12-31 23:59:59', '2020-01-02']),
                 'date': lambda: r.choice(['2020-01-02', '1999-12-31']),
@@ -479,7 +481,7 @@ def scenarios_conv(seed, n, op='from_data', max_depth=3, classes=True):
     out = []
     for i in range(n):
         gen = Gen(g.randrange(1 << 62), max_depth=g.choice([1, 2, 2, 3, max_depth]), classes=classes)
-        ty = gen.gen_type(0)
+        ty = gen.gen_type(0, lit_ok=True)
         p = gen.r.random()
         try:
             if p < 0.45:
